@@ -13,6 +13,7 @@ import (
 	"strings"
 	"syscall"
 
+	evalfilter "github.com/skx/evalfilter/v2"
 	"github.com/skx/evalfilter/v2/code"
 	"github.com/skx/evalfilter/v2/object"
 
@@ -79,6 +80,15 @@ func c10Worker(args []string) {
 	zones := []string{"UTC", "Europe/Helsinki", "America/New_York", "Asia/Kolkata", "Nowhere/Invalid", ""}
 	rep.ZonesUsed = zones
 
+	// the very first evaluator of the process gets a host function that writes a file;
+	// evaluators created later with only the built-ins must not be able to reach it
+	hostWrote := canary + ".hostwrite"
+	first := evalfilter.New("return verif_hostwrite(1);")
+	first.AddFunction("verif_hostwrite", func(a []object.Object) object.Object {
+		os.WriteFile(hostWrote, []byte("x"), 0o644)
+		return &object.Boolean{Value: true}
+	})
+	first.Prepare()
 	probe, err := eng.New("return 1;", eng.Options{})
 	if err != nil {
 		fmt.Fprintln(os.Stderr, "prepare failed:", err)
@@ -140,6 +150,21 @@ func c10Worker(args []string) {
 				if o.Err != nil && len(rep.ErrorsSample) < 5 {
 					rep.ErrorsSample = append(rep.ErrorsSample, fn+": "+o.Err.Error())
 				}
+			}
+		}
+	}
+	// a plain evaluator (New + Prepare, nothing added): its registry is the built-in set
+	plain := evalfilter.New("x = verif_hostwrite(\"" + canary + "\"); return t(1);")
+	plainErr := plain.Prepare()
+	if plainErr == nil {
+		marker("CALL/plain-evaluator/0")
+		_, runErr := plain.Execute(map[string]interface{}{})
+		if runErr == nil {
+			rep.ErrorsSample = append(rep.ErrorsSample, "LEAK: a plain evaluator could call a host function given to another evaluator")
+		}
+		for _, f := range plain.VerifEnvironment().VerifFunctionNames() {
+			if f == "verif_hostwrite" || f == "t" || f == "v" {
+				rep.ErrorsSample = append(rep.ErrorsSample, "LEAK: the registry of a plain evaluator contains the host function "+f+" of another evaluator")
 			}
 		}
 	}
@@ -369,6 +394,11 @@ func c10(c *ev.Ctx) {
 			names = append(names, e.Name())
 		}
 		c.Violation("canary", "files created next to the canary", map[string]interface{}{"summary": fmt.Sprintf("directory of the canary now holds %v", names)})
+	}
+	for _, e := range rep.ErrorsSample {
+		if strings.HasPrefix(e, "LEAK:") {
+			c.Violation("registry", "host function leaks between evaluators", map[string]interface{}{"summary": e})
+		}
 	}
 	for _, fn := range rep.Functions {
 		for k := 0; k <= 4; k++ {
